@@ -895,6 +895,62 @@ func pruneRows(rows []*Lin) []*Lin {
 // extracted arithmetic helper (e.g. a clamp on int64 offsets) be analysed under the guards its callers established.
 var entryFactsBusy = map[*ssa.Function]bool{}
 
+// entryTerm: a quantity of a function's entry state that callers can be asked about: an integer parameter, the
+// length of a slice/string parameter, or the length of a slice field of a struct parameter.
+type entryTerm struct {
+	name   string
+	isInt  bool
+	callee *Lin                                 // the term inside the function
+	atCall func(cfa *FA, args []ssa.Value) *Lin // the term as a caller sees it for given arguments
+}
+
+func scaleOrNil(l *Lin, k int64) *Lin {
+	if l == nil {
+		return nil
+	}
+	return l.Scale(k)
+}
+
+func (fa *FA) entryTerms() []entryTerm {
+	var out []entryTerm
+	for j, prm := range fa.Fn.Params {
+		j, prm := j, prm
+		if _, _, ok := intBits(prm.Type()); ok {
+			out = append(out, entryTerm{name: prm.Name(), isInt: true, callee: fa.Lin(prm), atCall: func(cfa *FA, args []ssa.Value) *Lin {
+				if j >= len(args) {
+					return nil
+				}
+				return cfa.Lin(args[j])
+			}})
+			continue
+		}
+		switch t := prm.Type().Underlying().(type) {
+		case *types.Slice:
+			out = append(out, entryTerm{name: "len(" + prm.Name() + ")", callee: fa.linSym(lenOf(fa.Sym(prm)), 0), atCall: func(cfa *FA, args []ssa.Value) *Lin {
+				if j >= len(args) {
+					return nil
+				}
+				return cfa.linSym(lenOf(cfa.Sym(args[j])), 0)
+			}})
+		case *types.Struct:
+			for k := 0; k < t.NumFields(); k++ {
+				f := t.Field(k)
+				if _, ok := f.Type().Underlying().(*types.Slice); !ok {
+					continue
+				}
+				fname := f.Name()
+				out = append(out, entryTerm{name: "len(" + prm.Name() + "." + fname + ")", callee: fa.linSym(lenOf(fa.fieldOf(fa.Sym(prm), fname, nil)), 0), atCall: func(cfa *FA, args []ssa.Value) *Lin {
+					if j >= len(args) {
+						return nil
+					}
+					return cfa.linSym(lenOf(cfa.fieldOf(cfa.Sym(args[j]), fname, nil)), 0)
+				}})
+			}
+		}
+	}
+	return out
+}
+
 func (fa *FA) entryFacts() []Fact {
 	if fa.entryDone {
 		return fa.entry
@@ -909,13 +965,14 @@ func (fa *FA) entryFacts() []Fact {
 	if fn.Parent() != nil || fn.Signature.Recv() != nil && false {
 		return nil
 	}
-	var ips []int
-	for j, prm := range fn.Params {
-		if _, _, ok := intBits(prm.Type()); ok {
-			ips = append(ips, j)
+	terms := fa.entryTerms()
+	nInt := 0
+	for _, t := range terms {
+		if t.isInt {
+			nInt++
 		}
 	}
-	if len(ips) == 0 || len(ips) > 4 {
+	if nInt == 0 || nInt > 4 || len(terms) > 7 {
 		return nil
 	}
 	sites, exact := fa.P.staticCallSites(fn)
@@ -929,6 +986,9 @@ func (fa *FA) entryFacts() []Fact {
 			}
 			cfa := fa.P.FA(c.Parent())
 			goal := mk(cfa, c.Call.Args)
+			if goal == nil {
+				return false
+			}
 			facts := withMagnitudes(cfa.FactsAt(c, goal), goal)
 			if !Entails(facts, goal) && !cfa.entailsPhiSplit(c, facts, goal, linConst(0), 2) {
 				return false
@@ -937,22 +997,35 @@ func (fa *FA) entryFacts() []Fact {
 		return true
 	}
 	var out []Fact
-	for _, i := range ips {
-		i := i
-		pi := fa.Lin(fn.Params[i])
-		if holdsAtAll(func(cfa *FA, args []ssa.Value) *Lin { return cfa.Lin(args[i]).Scale(-1) }) {
-			out = append(out, le(linConst(0), pi, fmt.Sprintf("precondition proved at all %d call sites: %s >= 0", len(sites), fn.Params[i].Name())))
+	for i, ti := range terms {
+		ti := ti
+		if ti.isInt {
+			if holdsAtAll(func(cfa *FA, args []ssa.Value) *Lin { return scaleOrNil(ti.atCall(cfa, args), -1) }) {
+				out = append(out, le(linConst(0), ti.callee, fmt.Sprintf("precondition proved at all %d call sites: %s >= 0", len(sites), ti.name)))
+			}
+			if holdsAtAll(func(cfa *FA, args []ssa.Value) *Lin {
+				l := ti.atCall(cfa, args)
+				if l == nil {
+					return nil
+				}
+				return l.Sub(linConst(int64(1) << 40))
+			}) {
+				out = append(out, le(ti.callee, linConst(int64(1)<<40), fmt.Sprintf("precondition proved at all %d call sites: %s <= 2^40", len(sites), ti.name)))
+			}
 		}
-		if holdsAtAll(func(cfa *FA, args []ssa.Value) *Lin { return cfa.Lin(args[i]).Sub(linConst(int64(1) << 40)) }) {
-			out = append(out, le(pi, linConst(int64(1)<<40), fmt.Sprintf("precondition proved at all %d call sites: %s <= 2^40", len(sites), fn.Params[i].Name())))
-		}
-		for _, j := range ips {
-			if i == j {
+		for j, tj := range terms {
+			if i == j || (!ti.isInt && !tj.isInt) {
 				continue
 			}
-			j := j
-			if holdsAtAll(func(cfa *FA, args []ssa.Value) *Lin { return cfa.Lin(args[i]).Sub(cfa.Lin(args[j])) }) {
-				out = append(out, le(pi, fa.Lin(fn.Params[j]), fmt.Sprintf("precondition proved at all %d call sites: %s <= %s", len(sites), fn.Params[i].Name(), fn.Params[j].Name())))
+			tj := tj
+			if holdsAtAll(func(cfa *FA, args []ssa.Value) *Lin {
+				a, b := ti.atCall(cfa, args), tj.atCall(cfa, args)
+				if a == nil || b == nil {
+					return nil
+				}
+				return a.Sub(b)
+			}) {
+				out = append(out, le(ti.callee, tj.callee, fmt.Sprintf("precondition proved at all %d call sites: %s <= %s", len(sites), ti.name, tj.name)))
 			}
 		}
 	}
